@@ -394,7 +394,7 @@ def skr_tree(resp: dict):
     return (name, attrs, [("Response", [], [("ResponsePolicy", [], [("KSK", [], ksk[2]), pol_zsk])] + bundles)])
 
 
-def render_tree(t, R=None, permute=False) -> str:
+def render_tree(t, R=None, permute=False, tail_blanks=True) -> str:
     """Plain-form serialisation with random layout (R = random.Random or None for a canonical layout)."""
     name, attrs, body = t
     ws_in = (lambda: R.choice([" ", " ", "  ", "\t", " \t "])) if R else (lambda: " ")
@@ -404,7 +404,7 @@ def render_tree(t, R=None, permute=False) -> str:
     if R and permute:
         R.shuffle(attrs)
     astr = "".join(ws_in() + f'{k}="{v}"' for k, v in attrs)
-    tail = ws_opt() if attrs else ""
+    tail = ws_opt() if attrs and tail_blanks else ""
     if body == "" or body == []:
         if attrs and (not R or R.random() < 0.5):
             return f"<{name}{astr}{tail}/>"
@@ -415,5 +415,5 @@ def render_tree(t, R=None, permute=False) -> str:
     children = list(body)
     if R and permute:
         R.shuffle(children)
-    inner = "".join(ws_el() + render_tree(c, R, permute) for c in children)
+    inner = "".join(ws_el() + render_tree(c, R, permute, tail_blanks) for c in children)
     return f"<{name}{astr}{tail}>{inner}{ws_el()}</{name}>"
